@@ -109,6 +109,13 @@ def window(e, base):
         if kind == "RangeFull":
             return (s0, e0)
         return None
+    if e[0] == "field" and e[2] in (0, 1) and e[1][0] == "call" and e[1][1].endswith(("::split_at", "::split_at_mut")) and len(e[1][2]) == 2:
+        # x.split_at(k) = (x[..k], x[k..])
+        w = window(e[1][2][0], base)
+        if w is None:
+            return None
+        mid = add(w[0], e[1][2][1])
+        return (w[0], mid) if e[2] == 0 else (mid, w[1])
     if e[0] == "call" and e[1].endswith("::from_slice") and len(e[2]) == 1:
         return window(e[2][0], base)
     if e[0] == "call" and (e[1].endswith("::as_mut_slice") or e[1].endswith("::as_slice")) and len(e[2]) == 1:
